@@ -40,7 +40,8 @@ PROPS = {
    corpus=["lex.txt"], tables=["Gen/Tables.v: kind, keywords"]),
  "C01": dict(
    corr=[("expr", "compile", 4000, 200000), ("prog", "compile", 2000, 100000), ("prog-params", "compile", 2000, 100000), ("lets", "compile", 1500, 75000),
-         ("signs", "compile", 0, 0), ("joinconds", "compile", 0, 0), ("joins", "compile", 1000, 50000)],
+         ("signs", "compile", 0, 0), ("joinconds", "compile", 0, 0), ("joins", "compile", 1000, 50000),
+         ("expr", "glue", 3000, 150000), ("prog", "glue", 2000, 100000), ("signs", "glue", 0, 0), ("lets", "glue", 1500, 75000)],
    oracle=[("expr", "reread", 4000, 200000), ("prog", "reread", 2000, 100000), ("prog-params", "reread", 2000, 100000), ("lets", "reread", 1500, 75000),
            ("signs", "reread", 0, 0), ("joinconds", "reread", 0, 0), ("expr", "oracle-C12", 1500, 75000), ("lets", "oracle-C14", 500, 25000)],
    oracle_for_stage={"compile": ["reread"]},
@@ -57,7 +58,8 @@ PROPS = {
    assumptions=["order-preserving reading of subqueries (a CTE keeps its row order when read by the next SELECT) is an assumption about the target dialect",
                 "the theorem is stated on the structured subqueries of the model; that the emitted text denotes them is tied by byte-exact correspondence of the rendering"]),
  "C05": dict(
-   corr=[("prog", "compile", 3000, 150000), ("prog-mut", "compile", 3000, 150000), ("pipes", "compile", 1500, 75000), ("joins", "compile", 1500, 75000)],
+   corr=[("prog", "compile", 3000, 150000), ("prog-mut", "compile", 3000, 150000), ("pipes", "compile", 1500, 75000), ("joins", "compile", 1500, 75000),
+         ("prog", "glue", 3000, 150000), ("prog-mut", "glue", 3000, 150000), ("pipes", "glue", 1500, 75000), ("joins", "glue", 1500, 75000), ("prog-hostile", "glue", 2000, 100000)],
    oracle=[("prog", "reread", 3000, 150000), ("prog-mut", "reread", 3000, 150000), ("pipes", "reread", 1500, 75000), ("joins", "reread", 1500, 75000),
            ("prog-mut", "oracle-C13", 1500, 75000)],
    oracle_for_stage={"compile": ["reread"]},
@@ -117,7 +119,8 @@ PROPS = {
    assumptions=["OS-level I/O (partial writes, signals, terminal detection, file-system errors other than a missing file) is outside the model",
                 "bufio.Scanner's line splitting and 64 KiB limit are modelled in events_of (coq/Model/Show.v) and tied by correspondence"]),
  "C04": dict(
-   corr=[("prog-hostile", "compile", 6000, 300000), ("prog-hostile", "scan", 2000, 100000), ("lit", "scan", 2000, 100000), ("prog-hostile", "parse", 2000, 100000)],
+   corr=[("prog-hostile", "compile", 6000, 300000), ("prog-hostile", "scan", 2000, 100000), ("lit", "scan", 2000, 100000), ("prog-hostile", "parse", 2000, 100000),
+         ("prog-hostile", "glue", 6000, 300000), ("prog", "glue", 2000, 100000)],
    oracle=[("prog-hostile", "reread", 6000, 300000), ("prog-hostile", "oracle-C09", 2000, 100000)],
    oracle_for_stage={"compile": ["reread"]},
    corpus=["compile.txt"], tables=[]),
